@@ -12,7 +12,8 @@ from ..dag import T, walk, show, deep_inline, simplify
 from ..model import FunctionInfo, AnalysisError, dotted
 from ..report import Ctx
 from ..tensor import Typer, MODEL_ARRAYS
-from ..util import norm, fn_body_nodes, walk_local, kwarg
+from ..pat import Snips
+from ..util import norm, fn_body_nodes, walk_local, kwarg, lexical_guards, atomic_facts
 from .common import arg_permutation_rule, names_in, calls_named
 
 EXPLANATION = (
@@ -112,7 +113,8 @@ def rule_store(ctx: Ctx, fi: FunctionInfo, what: str, dist_method: Optional[str]
         else:
             got_lists.append(None)
             ents.append(None)
-    inst = f"{what}: {var}[{', '.join(str(i) for i in idx)}] = {norm(st.value, 40)}"
+    roles = ", ".join(axes_entities)
+    inst = f"{what}: element store [{roles}] index provenance"
     if lists is None or None in got_lists or "?" in lists:
         ctx.unknown("TEN-4", fi, st, inst, f"allocation lists {lists}, index lists {got_lists}")
         return
@@ -132,7 +134,7 @@ def rule_store(ctx: Ctx, fi: FunctionInfo, what: str, dist_method: Optional[str]
         key, val = [e.id for e in lp.target.elts] if isinstance(lp.target, ast.Tuple) else (None, None)
         want_call = ents[:len(cargs)]
         ctx.check(cargs == want_call and ents[len(cargs)] == key if len(ents) > len(cargs) else cargs == want_call, "TEN-4", fi, st,
-                  f"{what}: axes ({', '.join(map(str, ents))}) are the arguments and key of {dist_method}({', '.join(map(str, cargs))}) -> {key}", "",
+                  f"{what}: axes ({roles}) are the arguments and key of {dist_method}(...).items()", "",
                   f"the store's axes correspond to entities ({', '.join(map(str, ents))}) but the distribution is {dist_method}({', '.join(map(str, cargs))}) with key `{key}`: "
                   f"a value is written at the position of a different entity than the one it was computed from")
         if value_kind == "prob":
@@ -142,7 +144,7 @@ def rule_store(ctx: Ctx, fi: FunctionInfo, what: str, dist_method: Optional[str]
             v = st.value
             ok = isinstance(v, ast.Call) and isinstance(v.func, ast.Attribute) and v.func.attr == "reward" and \
                 [a.id if isinstance(a, ast.Name) else None for a in v.args] == ents
-            ctx.check(ok, "TEN-4", fi, st, f"{what}: stored value is reward({', '.join(map(str, ents))})", "",
+            ctx.check(ok, "TEN-4", fi, st, f"{what}: stored value is reward({roles}) of the written cell", "",
                       f"stored value `{norm(v)}` is not the reward of the (s, a, ns) whose cell is written")
     elif value_kind == "one":
         ok = isinstance(st.value, ast.Constant) and st.value.value == 1
@@ -163,12 +165,41 @@ def rule_store(ctx: Ctx, fi: FunctionInfo, what: str, dist_method: Optional[str]
     ctx.check(bool(rets) and ast.unparse(rets[0].value) == var, "TEN-4", fi, rets[0] if rets else fi.node, f"{what}: returns the filled array", "", "a different array is returned")
 
 
+def local_list_aliases(fi: FunctionInfo) -> Dict[str, str]:
+    """local name -> text of the attribute chain it is bound to (`nss = self.state_list`)."""
+    out: Dict[str, str] = {}
+    for n in fn_body_nodes(fi):
+        if isinstance(n, ast.Assign) and len(n.targets) == 1 and isinstance(n.targets[0], ast.Name) and isinstance(n.value, ast.Attribute) and dotted(n.value):
+            out[n.targets[0].id] = ast.unparse(n.value)
+    return out
+
+
+def local_index_maps(fi: FunctionInfo) -> Dict[str, str]:
+    """locals that ARE element -> position maps, recognised by their definition and not by their spelling:
+    bound to an `*index*` attribute (`m = self.observation_index`) or to `{e: i for i, e in enumerate(L)}`."""
+    out: Dict[str, str] = {}
+    S = Snips(fi)
+    for n in fn_body_nodes(fi):
+        if not (isinstance(n, ast.Assign) and len(n.targets) == 1 and isinstance(n.targets[0], ast.Name)):
+            continue
+        if isinstance(n.value, ast.Attribute) and "index" in n.value.attr:
+            out[n.targets[0].id] = n.value.attr
+        else:
+            e = S.m("{e: i for i, e in enumerate(E_list)}", n.value)
+            if e is not None:
+                out[n.targets[0].id] = ast.unparse(e["list"])
+    return out
+
+
 def rule_zero_prob(ctx: Ctx, fns: List[FunctionInfo], list_attr: str, dist_names: Tuple[str, ...], rule="ZERO-1"):
     """D6: every loop over items() of a model distribution that looks the key up in `list_attr` filters zero
     probabilities first (as the function that builds the list does)."""
     n = 0
     for fi in fns:
         cfg = cfg_of(fi)
+        top_params = set(fi.param_names)
+        aliases, maps = local_list_aliases(fi), local_index_maps(fi)
+        k_fn = 0
         for lp in fn_body_nodes(fi):
             if not (isinstance(lp, ast.For) and isinstance(lp.iter, ast.Call) and isinstance(lp.iter.func, ast.Attribute) and lp.iter.func.attr == "items"
                     and isinstance(lp.iter.func.value, ast.Call) and any(d in ast.unparse(lp.iter.func.value.func) for d in dist_names)
@@ -177,14 +208,22 @@ def rule_zero_prob(ctx: Ctx, fns: List[FunctionInfo], list_attr: str, dist_names
             key, prob = [e.id if isinstance(e, ast.Name) else None for e in lp.target.elts]
             lookups = []
             for c in ast.walk(lp):
-                if isinstance(c, ast.Call) and isinstance(c.func, ast.Attribute) and c.func.attr == "index" and list_attr in ast.unparse(c.func.value) \
-                        and c.args and ast.unparse(c.args[0]) == key:
-                    lookups.append(c)
-                if isinstance(c, ast.Subscript) and isinstance(c.value, ast.Name) and isinstance(c.slice, ast.Name) and c.slice.id == key \
-                        and ("index" in c.value.id or c.value.id in ("ooi", "ss_i")):
-                    lookups.append(c)
+                if isinstance(c, ast.Call) and isinstance(c.func, ast.Attribute) and c.func.attr == "index" and c.args and ast.unparse(c.args[0]) == key:
+                    # receiver: the list attribute itself, or a local bound to it
+                    recv = c.func.value
+                    rtxt = aliases[recv.id] if isinstance(recv, ast.Name) and recv.id in aliases else ast.unparse(recv)
+                    if list_attr in rtxt:
+                        lookups.append(c)
+                if isinstance(c, ast.Subscript) and isinstance(c.slice, ast.Name) and c.slice.id == key:
+                    # element -> position map: a local bound to one (by its definition), an `*index*` attribute, or an `*index*` parameter
+                    v = c.value
+                    if (isinstance(v, ast.Name) and (v.id in maps or (v.id in top_params and "index" in v.id))) \
+                            or (isinstance(v, ast.Attribute) and "index" in v.attr):
+                        lookups.append(c)
+            lookups.sort(key=lambda x: (x.lineno, x.col_offset))
             for lk in lookups:
                 n += 1
+                k_fn += 1
                 node = cfg.node_for(lk)
                 ok = False
                 for g in cfg.nodes:
@@ -197,7 +236,7 @@ def rule_zero_prob(ctx: Ctx, fns: List[FunctionInfo], list_attr: str, dist_names
                                 ok = ok or (g.id != node and cfg.dominates(g.id, node))
                             if zero_cmp and isinstance(t.ops[0], (ast.Gt, ast.NotEq)) and any(lk is x for x in ast.walk(g.ast)):
                                 ok = True
-                ctx.check(ok, rule, fi, lk, f"{list_attr} lookup of `{key}` happens only for non-zero probability", "",
+                ctx.check(ok, rule, fi, lk, f"{list_attr} lookup of the distribution key happens only for non-zero probability" + (f" (lookup #{k_fn})" if k_fn > 1 else ""), "",
                           f"`{norm(lk)}` is evaluated before / without the zero-probability filter: a successor listed with probability 0 need not be in "
                           f"the inferred {list_attr} (reachable_states skips it) and the lookup raises")
     return n
@@ -206,7 +245,20 @@ def rule_zero_prob(ctx: Ctx, fns: List[FunctionInfo], list_attr: str, dist_names
 def rule_reachability(ctx: Ctx):
     P = ctx.P
     f = P.method("mdp.mdp.MarkovDecisionProcess", "reachable_states")
+    S = Snips(f)
     cfg = cfg_of(f)
+    # roles of the locals, bound by what they are: the worklist is the set that is popped, the popped element is the state that is
+    # expanded, the result is the name that is returned, the seed is the set comprehension over initial_state_dist().items()
+    _, e = S.first("s = frontier.pop()")
+    svar, frontier = (e["s"], e["frontier"]) if e else (None, None)
+    ret, e = S.first("return visited")
+    visited = e["visited"] if e else None
+    seeds = S.find("S0 = {e for e, p in self.initial_state_dist().items() if p > 0}") or S.find("S0 = {e for e, p in self.initial_state_dist().items() if p != 0}")
+    seed = seeds[0][1]["S0"] if seeds else None
+    if seed is None:        # a seed with a different filter is still the seed (the filter itself is REACH-3's first obligation)
+        anyseed = [n for n in fn_body_nodes(f) if isinstance(n, ast.Assign) and len(n.targets) == 1 and isinstance(n.targets[0], ast.Name)
+                   and isinstance(n.value, ast.SetComp) and S.m("self.initial_state_dist().items()", n.value.generators[0].iter) is not None]
+        seed = anyseed[0].targets[0].id if anyseed else None
     loops = [n for n in fn_body_nodes(f) if isinstance(n, ast.For)]
     succ = [l for l in loops if "next_state_dist" in ast.unparse(l.iter)]
     if not succ:
@@ -219,7 +271,7 @@ def rule_reachability(ctx: Ctx):
         ctx.violation("REACH-1", f, lp, "successors are filtered by positive probability",
                       f"the closure iterates `{norm(it)}`: successors listed with probability 0 (e.g. members of .support) are added to the reachable set")
     else:
-        key, prob = [e.id for e in lp.target.elts]
+        key, prob = [x.id for x in lp.target.elts]
         skip = [n for n in lp.body if isinstance(n, ast.If) and isinstance(n.test, ast.Compare) and isinstance(n.test.left, ast.Name) and n.test.left.id == prob
                 and isinstance(n.test.comparators[0], ast.Constant) and n.test.comparators[0].value == 0 and isinstance(n.test.ops[0], (ast.Eq, ast.LtE))
                 and any(isinstance(b, ast.Continue) for b in n.body)]
@@ -229,40 +281,61 @@ def rule_reachability(ctx: Ctx):
                   "zero-probability successors are not skipped before being added to the reachable set")
         call = it.func.value
         outer = [l for l in loops if any(lp is x for x in ast.walk(l)) and l is not lp]
-        pops = [n for n in fn_body_nodes(f) if isinstance(n, ast.Assign) and isinstance(n.value, ast.Call) and isinstance(n.value.func, ast.Attribute) and n.value.func.attr == "pop"]
-        svar = pops[0].targets[0].id if pops else None
-        ok = bool(outer) and "actions" in ast.unparse(outer[0].iter) and [ast.unparse(a) for a in outer[0].iter.args] == [svar] \
+        ok = bool(outer) and svar is not None and "actions" in ast.unparse(outer[0].iter.func if isinstance(outer[0].iter, ast.Call) else outer[0].iter) \
+            and isinstance(outer[0].iter, ast.Call) and [ast.unparse(a) for a in outer[0].iter.args] == [svar] \
             and [ast.unparse(a) for a in call.args] == [svar, outer[0].target.id if isinstance(outer[0].target, ast.Name) else "?"]
         ctx.check(ok, "REACH-2", f, lp, "expands next_state_dist(s, a) for every a in actions(s) of the popped state", "", "the expansion does not cover exactly the popped state's own actions")
-        vis = [a for a in adds if ast.unparse(a.args[0]) == key and "visited" in ast.unparse(a.func.value)]
-        fr = [a for a in adds if ast.unparse(a.args[0]) == key and "frontier" in ast.unparse(a.func.value)]
+        env = {"ns": key, "visited": visited, "frontier": frontier}
+        # the result set is a different object from the worklist; successors are added to each by `<set>.add(<key>)`
+        vis = [n for n, _ in S.find("visited.add(ns)", env, within=lp)] if visited is not None and visited != frontier else []
+        fr = [n for n, _ in S.find("frontier.add(ns)", env, within=lp)] if frontier is not None else []
         ctx.check(bool(vis) and not cfg.control_deps(cfg.node_for(vis[0])) or (bool(vis) and all(b == cfg.node_for(skip[0]) if skip else False for b, _ in cfg.control_deps(cfg.node_for(vis[0])))),
-                  "REACH-2", f, vis[0] if vis else lp, "every positive-probability successor is added to the reachable set", "", "some positive-probability successors are not added")
+                  "REACH-2", f, vis[0] if vis else lp, "every positive-probability successor is added to the reachable set", "", "some positive-probability successors are not added to the set that is returned")
         if fr:
-            g = [cfg.nodes[b].ast.test for b, lab in cfg.control_deps(cfg.node_for(fr[0])) if cfg.nodes[b].kind == "if" and lab.startswith("T")]
-            src = " ".join(ast.unparse(t) for t in g)
-            ctx.check("not in visited" in src and "is_absorbing" in src and "not self.is_absorbing" in src, "REACH-2", f, fr[0],
-                      "only unvisited, non-absorbing successors are expanded further", src, f"frontier guard is `{src}`")
+            facts = atomic_facts(lexical_guards(f, fr[0]))
+            ok = (f"{key} in {visited}", False) in facts and (f"self.is_absorbing({key})", False) in facts
+            ctx.check(ok, "REACH-2", f, fr[0], "only unvisited, non-absorbing successors are expanded further", "",
+                      "the successor is put on the worklist without the guard `not in <result set> and not self.is_absorbing(<successor>)`")
         else:
-            ctx.violation("REACH-2", f, lp, "successors are expanded further", "successors are never added to the frontier")
-    init = [n for n in fn_body_nodes(f) if isinstance(n, ast.Assign) and isinstance(n.value, ast.SetComp)]
-    ok = bool(init) and "initial_state_dist().items()" in ast.unparse(init[0].value) and init[0].value.generators[0].ifs \
-        and ast.unparse(init[0].value.generators[0].ifs[0]).replace(" ", "") in ("p>0", "p>0.0", "p!=0")
-    ctx.check(ok, "REACH-3", f, init[0] if init else f.node, "starts from the positive-probability initial states", "", "the closure does not start from exactly the positive-probability initial states")
-    rets = [n for n in fn_body_nodes(f) if isinstance(n, ast.Return)]
-    ctx.check(bool(rets) and ast.unparse(rets[0].value) == "visited", "REACH-3", f, rets[0] if rets else f.node, "returns the visited set", "", "returns something other than the visited set")
+            ctx.violation("REACH-2", f, lp, "successors are expanded further", "successors are never added to the worklist that is popped")
+    ctx.check(bool(seeds), "REACH-3", f, seeds[0][0] if seeds else f.node, "starts from the positive-probability initial states", "", "the closure does not start from exactly the positive-probability initial states")
+    # the returned name is the result set: seeded with (a copy of) the initial states, not the worklist
+    ok = visited is not None and seed is not None and visited != frontier and \
+        (visited == seed or S.has("visited = set(S0)", {"visited": visited, "S0": seed}) or S.has("visited = S0.copy()", {"visited": visited, "S0": seed}))
+    ok = ok and frontier is not None and (S.has("frontier = set(S0)", {"frontier": frontier, "S0": seed}) or S.has("frontier = S0.copy()", {"frontier": frontier, "S0": seed}))
+    ctx.check(ok, "REACH-3", f, ret if ret is not None else f.node, "returns the visited set", "", "returns something other than the visited set (seeded with the initial states, distinct from the worklist)")
+
+
+def _stores_of(fi: FunctionInfo, name: str) -> List[ast.stmt]:
+    """statements of fi that (re)bind the local `name`."""
+    out = []
+    for n in fn_body_nodes(fi):
+        if isinstance(n, ast.Assign) and any(isinstance(x, ast.Name) and x.id == name for t in n.targets for x in ast.walk(t) if isinstance(getattr(x, "ctx", None), ast.Store)):
+            out.append(n)
+        elif isinstance(n, (ast.AugAssign, ast.AnnAssign)) and isinstance(n.target, ast.Name) and n.target.id == name:
+            out.append(n)
+    return out
 
 
 def rule_vectors(ctx: Ctx, typer: Typer):
     P = ctx.P
     C = P.cls("TabularMarkovDecisionProcess")
     f = C.methods["initial_state_vec"]
+    S = Snips(f)
     comps = [n for n in ast.walk(f.node) if isinstance(n, ast.ListComp)]
-    ok = bool(comps) and ast.unparse(comps[0].generators[0].iter) == "self.state_list" and isinstance(comps[0].elt, ast.Call) \
-        and isinstance(comps[0].elt.func, ast.Attribute) and comps[0].elt.func.attr == "prob" and ast.unparse(comps[0].elt.args[0]) == ast.unparse(comps[0].generators[0].target)
+    ok = bool(comps) and S.m("[E_d.prob(s) for s in self.state_list]", comps[0]) is not None
     ctx.check(ok, "VEC-1", f, comps[0] if comps else f.node, "initial_state_vec[i] = initial_state_dist().prob(state_list[i])", "", "initial_state_vec is not the initial probability of each listed state, in list order")
-    src = ast.unparse(f.node)
-    ctx.check("self.initial_state_dist()" in src, "VEC-1", f, f.node, "initial_state_vec reads the MDP's own initial_state_dist()", "", "initial distribution source changed")
+    # the distribution whose .prob is read is the MDP's own initial_state_dist(): the call itself, or a local bound to exactly that call
+    recv = [e["d"] for _, e in S.find("E_d.prob(ANY)")]
+
+    def is_own_initial(d: ast.AST) -> bool:
+        if S.m("self.initial_state_dist()", d) is not None:
+            return True
+        if not isinstance(d, ast.Name):
+            return False
+        defs = [st for st in _stores_of(f, d.id) if st.lineno < d.lineno and not any(d is x for x in ast.walk(st))]
+        return bool(defs) and S.m("V_x = self.initial_state_dist()", max(defs, key=lambda st: st.lineno)) is not None
+    ctx.check(bool(recv) and all(is_own_initial(d) for d in recv), "VEC-1", f, f.node, "initial_state_vec reads the MDP's own initial_state_dist()", "", "initial distribution source changed")
     f = C.methods["state_action_reward_matrix"]
     t = simplify(ctx.X.returns(f))
     n = check_einsums(ctx, t, typer, f, rule1="VEC-1", rule2="VEC-1")
@@ -270,36 +343,61 @@ def rule_vectors(ctx: Ctx, typer: Typer):
     ok = bool(es) and es[0].args[0].value.replace(" ", "") == "san,san->sa"
     ctx.check(ok, "VEC-1", f, es[0] if es else f.node, "state_action_reward_matrix = sum over successors of R*T", "", "expected reward does not contract reward and transition over the successor axis")
     f = C.methods["absorbing_state_vec"]
+    S = Snips(f)
     comps = [n for n in ast.walk(f.node) if isinstance(n, ast.ListComp) and "is_absorbing" in ast.unparse(n)]
-    ok = bool(comps) and ast.unparse(comps[0].generators[0].iter) == "self.state_list" and ast.unparse(comps[0].elt) == f"self.is_absorbing({ast.unparse(comps[0].generators[0].target)})"
+    ok = bool(comps) and S.m("[self.is_absorbing(s) for s in self.state_list]", comps[0]) is not None
     ctx.check(ok, "VEC-1", f, comps[0] if comps else f.node, "explicit absorbing flags are is_absorbing(s) in state_list order", "", "absorbing flags are not is_absorbing(s) over the state list")
-    rets = ast.unparse(f.node)
-    ctx.check("| absorbing_state_vec" in rets or "|absorbing_state_vec" in rets.replace(" ", ""), "VEC-1", f, f.node, "explicitly absorbing states are always absorbing (or-ed in)", "", "explicit absorbing flags can be masked out")
+    # role binding: `flags` is the local that receives the explicit flags; the returned local is `<derived> | flags`
+    fdef = [st for st in fn_body_nodes(f) if comps and isinstance(st, ast.Assign) and len(st.targets) == 1 and isinstance(st.targets[0], ast.Name) and any(comps[0] is x for x in ast.walk(st.value))]
+    ok = False
+    if fdef:
+        flags = fdef[0].targets[0].id
+        sol = S.solve(["out = E_derived | flags", "return out"], {"flags": flags})
+        if sol is not None:
+            (env, (ost, rst)) = sol
+            # `flags` still holds the explicit flags where it is or-ed in, and the or-ed value is what reaches the return
+            ok = fdef[0].lineno < ost.lineno < rst.lineno \
+                and not [st for st in _stores_of(f, flags) if fdef[0].lineno < st.lineno < ost.lineno] \
+                and not [st for st in _stores_of(f, env["out"]) if ost.lineno < st.lineno < rst.lineno]
+    ctx.check(ok, "VEC-1", f, f.node, "explicitly absorbing states are always absorbing (or-ed in)", "", "explicit absorbing flags can be masked out")
     f = C.methods["_unable_to_reach_absorbing"]
     src = ast.unparse(f.node)
     ctx.check("self.discount_rate < 1.0" in src and "floyd_warshall" in src and "self.absorbing_state_vec" in src, "VEC-1", f, f.node,
               "cannot-reach vector: zero when discounted, else no path to an absorbing state", "", "cannot-reach analysis lost a component")
-    f = C.methods["action_matrix"]
 
 
 def rule_from_matrices(ctx: Ctx):
     P = ctx.P
     f = P.method("TabularMarkovDecisionProcess", "from_matrices")
+    S = Snips(f, literals=["QuickTabularMDP"])
+    top_params = set(f.param_names)
     maps: Dict[str, str] = {}
     for n in fn_body_nodes(f):
         if isinstance(n, ast.Assign) and isinstance(n.value, ast.DictComp) and isinstance(n.targets[0], ast.Name):
             dc = n.value
             it = dc.generators[0].iter
             if isinstance(it, ast.Call) and isinstance(it.func, ast.Name) and it.func.id == "enumerate" and isinstance(it.args[0], ast.Name):
-                tn = [e.id for e in dc.generators[0].target.elts]
-                ok = ast.unparse(dc.key) == tn[1] and ast.unparse(dc.value) == tn[0]
-                ctx.check(ok, "FM-1", f, n, f"{n.targets[0].id} maps each element of {it.args[0].id} to its position", "", f"index map `{norm(n.value)}` does not map element -> position")
+                ok = S.m("{e: i for i, e in enumerate(E_list)}", dc) is not None
+                ctx.check(ok, "FM-1", f, n, f"the index map built from {it.args[0].id if it.args[0].id in top_params else 'a local list'} maps each element to its position", "",
+                          f"index map `{norm(n.value)}` does not map element -> position")
                 maps[n.targets[0].id] = it.args[0].id
     want_axis = {"transition_matrix": ["state_list", "action_list", "state_list"], "reward_matrix": ["state_list", "action_list", "state_list"],
                  "action_matrix": ["state_list", "action_list"], "absorbing_state_vec": ["state_list"], "initial_state_vec": ["state_list"]}
     ent_axis = {"transition_matrix": ["s", "a", "ns"], "reward_matrix": ["s", "a", "ns"], "action_matrix": ["s", "a"], "absorbing_state_vec": ["s"]}
+    # interface role of each closure = the keyword under which it is handed to the rebuilt MDP (not the spelling of its name)
+    q = calls_named(f, "QuickTabularMDP")
+    closure_role: Dict[str, str] = {}
+    if q:
+        for kw in q[0].keywords:
+            if kw.arg and isinstance(kw.value, ast.Name) and kw.value.id in f.nested:
+                closure_role.setdefault(kw.value.id, kw.arg)
+
+    def arrays_read(nf: FunctionInfo) -> set:
+        return {sub.value.id for sub in ast.walk(nf.node) if isinstance(sub, ast.Subscript) and isinstance(sub.value, ast.Name) and sub.value.id in want_axis
+                and isinstance(sub.ctx, ast.Load)}
     for nf in f.nested.values():
         params = nf.positional_params
+        role_nf = closure_role.get(nf.name, nf.name)
         for sub in ast.walk(nf.node):
             if isinstance(sub, ast.Subscript) and isinstance(sub.value, ast.Name) and sub.value.id in want_axis and isinstance(sub.ctx, ast.Load):
                 arr = sub.value.id
@@ -312,40 +410,56 @@ def rule_from_matrices(ctx: Ctx):
                         lst, ent = maps[it.value.id], ast.unparse(it.slice)
                     elif isinstance(it, ast.Call) and isinstance(it.func, ast.Attribute) and it.func.attr == "index" and isinstance(it.func.value, ast.Name):
                         lst, ent = it.func.value.id, ast.unparse(it.args[0])
-                    inst = f"{nf.name}: {arr} axis {k} indexed by position of `{ent}` in {lst}"
                     if lst is None:
-                        ctx.unknown("FM-1", nf, sub, f"{nf.name}: {arr} axis {k}", f"index `{norm(it)}` not recognised")
+                        ctx.unknown("FM-1", nf, sub, f"{role_nf}: {arr} axis {k}", f"index `{norm(it)}` not recognised")
                         continue
                     ok = k < len(want_axis[arr]) and lst == want_axis[arr][k]
-                    ctx.check(ok, "FM-1", nf, sub, inst, "", f"axis {k} of {arr} is laid out over {want_axis[arr][k] if k < len(want_axis[arr]) else '?'} but is read with a position in {lst}")
+                    ctx.check(ok, "FM-1", nf, sub, f"{role_nf}: {arr} axis {k} is indexed by a position in the list that axis is laid out over", "",
+                              f"axis {k} of {arr} is laid out over {want_axis[arr][k] if k < len(want_axis[arr]) else '?'} but is read with a position in {lst if lst in top_params else 'another list'}")
                     if arr in ent_axis and k < len(ent_axis[arr]) and len(params) >= 1:
                         # the entity is the closure's own parameter playing that role (by position in the interface)
                         role = ent_axis[arr][k]
                         want = {"s": params[0] if params else None, "a": params[1] if len(params) > 1 else None, "ns": params[2] if len(params) > 2 else None}[role]
-                        ctx.check(ent == want, "FM-1", nf, sub, f"{nf.name}: {arr} axis {k} uses the closure's `{role}` argument", "",
-                                  f"axis {k} ({role}) of {arr} is indexed with `{ent}`, but the closure's {role} argument is `{want}`")
+                        got = f"its parameter #{params.index(ent)}" if ent in params else "an expression that is not one of its parameters"
+                        ctx.check(ent == want, "FM-1", nf, sub, f"{role_nf}: {arr} axis {k} uses the closure's `{role}` argument", "",
+                                  f"axis {k} ({role}) of {arr} is indexed with {got}, but the closure's {role} argument is parameter #{params.index(want) if want in params else '?'}")
         # zips pair arrays with the list of the same axis
         for z in ast.walk(nf.node):
             if isinstance(z, ast.Call) and isinstance(z.func, ast.Name) and z.func.id == "zip" and len(z.args) == 2 and isinstance(z.args[0], ast.Name):
                 lst = z.args[0].id
-                src = ast.unparse(z.args[1])
-                if nf.name == "next_state_dist":
-                    ctx.check(lst == "state_list", "FM-1", nf, z, "next_state_dist pairs successor probabilities with state_list", "", f"pairs with {lst}")
-                if nf.name == "actions":
-                    ctx.check(lst == "action_list", "FM-1", nf, z, "actions pairs availability flags with action_list", "", f"pairs with {lst}")
+                if role_nf == "next_state_dist":
+                    ctx.check(lst == "state_list", "FM-1", nf, z, "next_state_dist pairs successor probabilities with state_list", "", "pairs with a different list")
+                if role_nf == "actions":
+                    ctx.check(lst == "action_list", "FM-1", nf, z, "actions pairs availability flags with action_list", "", "pairs with a different list")
+    # the initial distribution: the local bound to DictDistribution over (state_list, initial_state_vec) restricted to p > 0 (whole statement)
+    init = S.find("isd = DictDistribution({s: p for s, p in zip(state_list, initial_state_vec) if p > 0})")
+    isd = init[0][1]["isd"] if init else None
     # constructor wiring
-    q = calls_named(f, "QuickTabularMDP")
+    closure_array = {"next_state_dist": ("transition_matrix", 2), "reward": ("reward_matrix", 3), "actions": ("action_matrix", 1), "is_absorbing": ("absorbing_state_vec", 1)}
     if q:
         for k in ("next_state_dist", "reward", "actions", "initial_state_dist", "is_absorbing", "discount_rate"):
             v = kwarg(q[0], k)
-            ctx.check(v is not None and ast.unparse(v) == k, "FM-1", f, q[0], f"rebuilt MDP gets {k}={k}", "", f"`{k}` is not passed through to the rebuilt MDP ({norm(v) if v is not None else 'missing'})")
+            if k in closure_array:
+                arr, arity = closure_array[k]
+                nf = f.nested.get(v.id) if isinstance(v, ast.Name) else None
+                ok = nf is not None and arrays_read(nf) == {arr} and len(nf.positional_params) == arity
+                what = f"the {arity}-argument closure that reads {arr}"
+            elif k == "initial_state_dist":
+                ok = isinstance(v, ast.Name) and isd is not None and v.id == isd
+                what = "the distribution rebuilt from (state_list, initial_state_vec)"
+            else:
+                ok = isinstance(v, ast.Name) and v.id == k and k in top_params
+                what = f"the `{k}` argument"
+            ctx.check(ok, "FM-1", f, q[0], f"rebuilt MDP gets {k} = {what}", "", f"`{k}` of the rebuilt MDP is not {what} ({'missing' if v is None else 'something else is passed'})")
+    # the rebuilt MDP is the local bound to the constructor call; it keeps the given lists and is what is returned
+    built = [n for n in fn_body_nodes(f) if q and isinstance(n, ast.Assign) and len(n.targets) == 1 and isinstance(n.targets[0], ast.Name) and n.value is q[0]]
+    mdp = built[0].targets[0].id if built else None
+    returned = mdp is not None and S.has("return mdp", {"mdp": mdp})
     for attr, lst in (("_state_list", "state_list"), ("_action_list", "action_list")):
-        st = [n for n in fn_body_nodes(f) if isinstance(n, ast.Assign) and ast.unparse(n.targets[0]) == f"mdp.{attr}"]
-        ok = bool(st) and lst in names_in(st[0].value)
-        ctx.check(ok, "FM-1", f, st[0] if st else f.node, f"rebuilt MDP keeps the given {lst}", "", f"the given {lst} is not attached to the rebuilt MDP")
-    init = [n for n in fn_body_nodes(f) if isinstance(n, ast.Assign) and ast.unparse(n.targets[0]) == "initial_state_dist"]
-    ok = bool(init) and "zip(state_list, initial_state_vec)" in ast.unparse(init[0].value) and "p > 0" in ast.unparse(init[0].value)
-    ctx.check(ok, "FM-1", f, init[0] if init else f.node, "initial distribution pairs state_list with initial_state_vec (p > 0)", "", "initial distribution is not rebuilt from (state_list, initial_state_vec)")
+        st = S.find(f"mdp.{attr} = E_v", {"mdp": mdp}) if mdp is not None else []
+        ok = bool(st) and returned and lst in names_in(st[0][1]["v"])
+        ctx.check(ok, "FM-1", f, st[0][0] if st else f.node, f"rebuilt MDP keeps the given {lst}", "", f"the given {lst} is not attached to the rebuilt MDP that is returned")
+    ctx.check(bool(init), "FM-1", f, init[0][0] if init else f.node, "initial distribution pairs state_list with initial_state_vec (p > 0)", "", "initial distribution is not rebuilt from (state_list, initial_state_vec)")
 
 
 def rule_quick(ctx: Ctx):
@@ -368,9 +482,11 @@ def rule_quick(ctx: Ctx):
     st = [n for n in ast.walk(init.node) if isinstance(n, ast.Assign) and ast.unparse(n.targets[0]) == "self.discount_rate"]
     ctx.check(bool(st) and ast.unparse(st[0].value) == "discount_rate", "QK-1", init, st[0] if st else init.node, "discount_rate stored", "", "discount_rate argument is not stored")
     # deterministic wrappers
-    src = ast.unparse(init.node)
-    ctx.check("DeterministicDistribution(next_state(s, a))" in src, "QK-1", init, init.node, "next_state wrapper = DeterministicDistribution(next_state(s, a))", "", "deterministic transition wrapper changed")
-    ctx.check("DeterministicDistribution(initial_state)" in src, "QK-1", init, init.node, "initial_state wrapper = DeterministicDistribution(initial_state)", "", "deterministic initial-state wrapper changed")
+    S = Snips(init)
+    w = S.find("self._next_state_dist = lambda s, a: DeterministicDistribution(next_state(s, a))")
+    ctx.check(bool(w), "QK-1", init, w[0][0] if w else init.node, "next_state wrapper = DeterministicDistribution(next_state(s, a))", "", "deterministic transition wrapper changed")
+    w = S.find("self._initial_state_dist = lambda: DeterministicDistribution(initial_state)")
+    ctx.check(bool(w), "QK-1", init, w[0][0] if w else init.node, "initial_state wrapper = DeterministicDistribution(initial_state)", "", "deterministic initial-state wrapper changed")
 
 
 def rule_lists(ctx: Ctx):
@@ -381,8 +497,12 @@ def rule_lists(ctx: Ctx):
     ctx.check("self.reachable_states()" in src, "LIST-1", sl, sl.node, "inferred state list = reachable_states()", "", "inferred state list is not the reachable set")
     ctx.check("domaintuple(self._state_list)" in src, "LIST-1", sl, sl.node, "an explicit _state_list is used as given", "", "explicit state list is ignored")
     al = C.methods["action_list"]
-    src = ast.unparse(al.node)
-    ok = "for s in self.state_list" in src and "self._cached_actions(s)" in src
+    S = Snips(al)
+    # the accumulator is the local keyed by every a in _cached_actions(s) for every s in state_list, and it is what domaintuple(...) returns
+    sol = S.solve(["for s in self.state_list:\n    for a in self._cached_actions(s):\n        acc[a] = ANY"])
+    rets = [n for n in fn_body_nodes(al) if isinstance(n, ast.Return)]
+    inferred = [r for r in rets if sol is not None and (S.m("return domaintuple(acc)", r, sol[0]) is not None or S.m("return domaintuple(sorted(acc))", r, sol[0]) is not None)]
+    ok = bool(inferred) and all(r in inferred or S.m("return domaintuple(self._action_list)", r) is not None for r in rets)
     ctx.check(ok, "LIST-1", al, al.node, "inferred action list = union of actions(s) over the state list", "", "inferred action list is not the union of the listed states' actions")
 
 
